@@ -339,6 +339,15 @@ def uses_macro_variant(rng, p):
                 out.append('!mypush [ x%s ]' % i[1].hex())
             else:
                 out.append(sp.render1(i, 0))
+    elif c < 0.75:
+        for i in p:
+            if i[0] == 'push1' and 2 <= len(i[1]) <= 255:
+                # run-time comptime: the block is executed and its top stack item becomes the pushed value
+                v = i[1]
+                k = rng.randrange(1, len(v))
+                out.append('push ~! { push x%s push x%s %s } ' % (v[:k].hex(), v[k:].hex(), rng.choice(['concat', 'cat', 'OP_CONCAT'])))
+            else:
+                out.append(sp.render1(i, 0))
     else:
         for i in p:
             if i[0] == 'push1' and 2 <= len(i[1]) <= 255:
@@ -386,6 +395,7 @@ def c11_task(task):
     _init()
     rng = random.Random(seed)
     model = tsh.Model()
+    model.set_cfg(tsh.Cfg())         # ~! { } comptime blocks run on the VM model under the default configuration
     stats = collections.Counter()
     dis, viol, samples = [], [], []
     digests = set()
@@ -497,6 +507,24 @@ def c11_task(task):
                     src_model_syms(bad, 'damaged')
         if len(samples) < 2:
             samples.append(dict(listing=lst[:8], spelling=variants[1][1][:200], bytes=ref.hex()[:120]))
+    # the SOURCE TEXTS the real builders of tools.py generate (f-string templates, comments, ~! { } comptime blocks that run
+    # hashes and signatures at compile time) through the model's compile_text: must give the builder's own bytes
+    import builders as _B
+    for _ in range(max(1, n // 40)):
+        for nm, sc in _B.src_cases(rng):
+            if isinstance(sc, Exception) or not getattr(sc, 'src', '').strip():
+                continue
+            stats['builder-source'] += 1
+            m = model.cmd('CTXT ' + (sc.src.encode().hex() or '-')).split(' ')
+            want = 'ok:' + tsh.hx(sc.bytes)
+            if m[1] == 'unm':
+                stats['builder-source:unm'] += 1
+            elif m[1] == want or (m[1].startswith('ok:') and m[1][3:].replace('-', '') == sc.bytes.hex()):
+                stats['builder-source:agree'] += 1
+            else:
+                stats['builder-source:differ'] += 1
+                if len(dis) < 5:
+                    dis.append(dict(stream='compile_text of the source text of %s vs its bytes' % nm, source=sc.src[:300], model=m[1][:200], impl=want[:200]))
     # sources that cannot be encoded must be rejected, not silently mis-assembled
     for src in MALFORMED:
         stats['malformed'] += 1
